@@ -12,6 +12,7 @@
 import P2P.Model.Peoe
 import P2P.Gen.Ligand
 import P2P.Proofs.PeoeLemmas
+import P2P.Proofs.PeoeEquivLemmas
 
 namespace P2P.Props.C16
 open P2P P2P.Peoe P2P.Proofs.Peoe
@@ -79,5 +80,29 @@ example : formalCharge2 "O.co2" 6 9 1 = .inl (-1) ∧ formalCharge2 "O.co2" 6 9 
     formalCharge2 "N.4" 5 0 4 = .inl 2 ∧ formalCharge2 "N.3" 5 4 4 = .inl 2 ∧ formalCharge2 "C.3" 4 0 4 = .inl 0 ∧
     formalCharge2 "N.am" 5 0 3 = .inl 0 ∧ formalCharge2 "O.3" 6 8 1 = .inr () := by decide
 example : bondOrder [.aromatic, .aromatic, .single] = 4 ∧ bondOrder [.double, .single, .single] = 4 := by decide
+
+/-- **relabelling the atoms and re-ordering the bond records only permutes the charges** (over ℚ):
+if a second description of the molecule is the first one seen through a relabelling `σ` of the
+atoms `0 … n-1` (inverse `τ`) — same electronegativity, normaliser and formal-charge share for
+corresponding atoms, and for every atom a neighbour list that is a permutation of the relabelled
+neighbour list of its counterpart — then after any number of PEOE cycles from corresponding
+charges, atom `i` of the second description carries the charge of atom `σ i` of the first. (The
+formal charges themselves are input here: the phosphate correction of `formal_charge` picks "the
+first terminal oxygen" and is order-dependent between equivalent oxygens by design.) -/
+theorem cycles_equivariant (n : Nat) (σ τ : Nat → Nat)
+    (hσ : ∀ i, i < n → σ i < n) (hτ : ∀ i, i < n → τ i < n) (hστ : ∀ i, i < n → σ (τ i) = i) (hτσ : ∀ i, i < n → τ (σ i) = i)
+    (chi chi' : ℚ → Nat → ℚ) (norm norm' : Nat → ℚ) (bonded bonded' : Nat → List Nat) (damp : ℚ) (share share' : Nat → ℚ)
+    (hchi : ∀ q i, i < n → chi' q i = chi q (σ i)) (hnorm : ∀ i, i < n → norm' i = norm (σ i))
+    (hshare : ∀ i, i < n → share' i = share (σ i))
+    (hb : ∀ i, i < n → ∀ j ∈ bonded i, j < n)
+    (hbond : ∀ i, i < n → (bonded' i).Perm ((bonded (σ i)).map τ))
+    (k icycle : Nat) (q q' : List ℚ) (hq : q.length = n) (hq' : q'.length = n)
+    (hqq : ∀ i, i < n → q'.getD i 0 = q.getD (σ i) 0) :
+    let r := cycles n chi norm bonded damp share k icycle q
+    let r' := cycles n chi' norm' bonded' damp share' k icycle q'
+    r.length = q.length ∧ r'.length = q'.length ∧ (k = 0 ∨ (r.length = n ∧ r'.length = n)) ∧
+    ∀ i, i < n → r'.getD i 0 = r.getD (σ i) 0 :=
+  P2P.Proofs.PeoeEquiv.cycles_equivariant_core n σ τ hσ hτ hστ hτσ chi chi' norm norm' bonded bonded' damp share share'
+    hchi hnorm hshare hb hbond k icycle q q' hq hq' hqq
 
 end P2P.Props.C16
